@@ -133,13 +133,13 @@ def install(reg, src):
     reg.mark_inline(f"{M}:_product_degree", f"{M}:_power_degree", f"{M}:_in_column_order")      # comparisons and a max: executed as written
     # ---- helper shared by the twins (present after the D8 repair): degree of the elements of a vector operand
     if f"{M}:_vector_elements_degree" in src.funcs:
-        @reg.contract(f"{M}:_vector_elements_degree", props=["C04", "C15", "C06", "C08"], cases={"vector": ["VectorVariable", "VectorExpression"]},
+        @reg.contract(f"{M}:_vector_elements_degree", props=["C04", "C15", "C06", "C08"], cases={"vector": ["VectorVariable", "VectorExpression", "MatrixVectorProduct"]},
                       group="deg", rank=4)
         def _(c):
             from .vecspec import vec_deg, vec_syn, vec_nd0
             from .seqtheory import VLEN
             sp = Spec(c.ip)
-            vk = c.choose("vector", ["VectorVariable", "VectorExpression"])
+            vk = c.choose("vector", ["VectorVariable", "VectorExpression", "MatrixVectorProduct"])
             v = c.arg("vector", T.obj(vk, exact=True) if vk else T.obj("VectorExpression"))
             c.decreases(v)
             vr = sp.ref(v)
@@ -158,7 +158,7 @@ def install(reg, src):
                 d = res.t if isinstance(res, SInt) else z3.IntVal(int(res))
                 return z3.And(d >= 0, allp(n), mx(n) <= d, z3.Implies(d <= 1, synv))
             c.ensures("element degrees", post)
-            if c.verifying and vk == "VectorExpression":
+            if c.verifying and vk in ("VectorExpression", "MatrixVectorProduct"):
                 SYNALL = sym.fn("SYNALL", sym.Ref, sym.I, sym.B)
 
                 def inv(st):
